@@ -234,6 +234,7 @@ func (e *Env) VerifyFunc(fn *ssa.Function, ct *Contract, maxPaths int) *FuncResu
 	}
 	paths, capped := e.Explore(maxPaths, func(ex *Exec) {
 		ex.TopKey = fkey
+		ex.TopFn = fn
 		args, ev, _ := e.bindArgs(ex, fn, ct)
 		e.snapshotOld(ex, fn, args, ev)
 		if ct != nil {
@@ -671,6 +672,8 @@ func (ex *Exec) applyContractSig(fr *frame, calleeKey string, pkg *types.Package
 	}
 	env.evalLets(ct, ev, false)
 	// every combination of instantiations of the quantified variables
+	ex.revealPrefix = resPrefix
+	defer func() { ex.revealPrefix = "" }()
 	var inst func(i int)
 	inst = func(i int) {
 		if i == len(fnames) {
